@@ -1455,3 +1455,31 @@ _v("c05-r-makespan-memo", "C05", "refactor", None, [
 _v("c07-r-makespan-memo", "C07", "refactor", None, list(VARIANTS[-1]["edits"]), "same memo, judged by the filter-purity rule")
 _v("c05-m-makespan-memo-stale", "C05", "mutant", "R05.a", [e for e in VARIANTS[-2]["edits"] if "append" not in e[1]],
    "Schedule.add does not drop the memo: the fill is a write that makes later queries reflect an earlier state")
+
+
+# ------------------------------------------------------------------ seed round 12 / twins of rounds 9 and 12
+SENV = "job_shop_lib/reinforcement_learning/_single_job_shop_graph_env.py"
+mutant("c09-n-sentinel-order-test", "C09", "R09.e", SENV,
+       "        if machine_id == -1:\n            machine_id = operation.machine_id",
+       "        if machine_id < 0:\n            machine_id = operation.machine_id",
+       "every negative machine id is taken for the -1 sentinel")
+_v("c12-n-reset-from-construction-snapshot", "C12", "mutant", "R12.a", [
+    (REW2, "        super().__init__(dispatcher, subscribe=subscribe)\n        self.current_makespan = dispatcher.schedule.makespan()\n",
+     "        super().__init__(dispatcher, subscribe=subscribe)\n        self._initial_makespan = dispatcher.schedule.makespan()\n        self.current_makespan = self._initial_makespan\n"),
+    (REW2, "        super().reset()\n        self.current_makespan = self.dispatcher.schedule.makespan()",
+     "        super().reset()\n        self.current_makespan = self._initial_makespan"),
+], "reset restores the makespan of the moment the observer was attached")
+mutant("c10-n-guard-skipped-unsubscribed", "C10", "R10.c", DISP,
+       "        if self._is_singleton and any(\n            isinstance(observer, self.__class__)\n            for observer in dispatcher.subscribers\n        ):",
+       "        if not subscribe:\n            self.dispatcher = dispatcher\n            return\n        if self._is_singleton and any(\n            isinstance(observer, self.__class__)\n            for observer in dispatcher.subscribers\n        ):",
+       "the singleton guard is not evaluated for subscribe=False")
+_v("c05-r-incremental-makespan-refused", "C05", "refusal", None, [
+    (SCH, "        self.instance: JobShopInstance = instance\n        self._schedule = schedule\n",
+     "        self.instance: JobShopInstance = instance\n        self._schedule = schedule\n        self._makespan: int | None = None\n"),
+    (SCH, "        Schedule.check_schedule(new_schedule)\n        self._schedule = new_schedule\n",
+     "        Schedule.check_schedule(new_schedule)\n        self._schedule = new_schedule\n        self._makespan = None\n"),
+    (SCH, "        max_end_time = 0\n        for machine_schedule in self.schedule:\n            if machine_schedule:\n                max_end_time = max(max_end_time, machine_schedule[-1].end_time)\n        return max_end_time\n",
+     "        if self._makespan is None:\n            max_end_time = 0\n            for machine_schedule in self.schedule:\n                if machine_schedule:\n                    max_end_time = max(max_end_time, machine_schedule[-1].end_time)\n            self._makespan = max_end_time\n        return self._makespan\n"),
+    (SCH, "        self.schedule[scheduled_operation.machine_id].append(\n            scheduled_operation\n        )\n",
+     "        self.schedule[scheduled_operation.machine_id].append(\n            scheduled_operation\n        )\n        if self._makespan is not None:\n            self._makespan = max(self._makespan, scheduled_operation.end_time)\n"),
+], "a running maximum advanced by add(): bookkeeping of a query, neither accepted as a memo nor reported")
